@@ -157,6 +157,7 @@ pub fn lanes_for(prop: &str, tier: &str, seed: u64) -> Vec<Scenario> {
         "C15" => {
             v.extend(gen::lane_fates(Tier::Lib, seed));
             v.extend(gen_cli::lane_skip(seed));
+            v.extend(gen_cli::lane_skip_interplay(seed));
             v.extend(gen_cli::lane_random(Tier::Lib, seed, n_rand_lib, "C15"));
             v.extend(gen_cli::lane_random(Tier::Cli, seed, n_rand_cli, "C15"));
         }
@@ -167,6 +168,7 @@ pub fn lanes_for(prop: &str, tier: &str, seed: u64) -> Vec<Scenario> {
         }
         "C20" => {
             v.extend(gen_cli::lane_runs(seed));
+            v.extend(gen_cli::lane_hard_failures(seed));
             v.extend(gen_cli::lane_summary(seed, if thorough { 1 } else { 2 }));
             v.extend(gen_cli::lane_cli_fates(seed, if thorough { 1 } else { 4 }));
             v.extend(gen::lane_fates(Tier::Lib, seed));
